@@ -88,6 +88,8 @@ impl<T: Float> QuickArgSort for Vec<T> {
                 index[l + 1] = index[j];
                 index[j] = b;
                 jstack += 2;
+                #[cfg(feature = "verif")]
+                crate::verif::note_max("quick_argsort.stack", jstack as u64);
 
                 if jstack >= 64 {
                     panic!("stack size is too small.");
